@@ -858,11 +858,11 @@ theorem dddmpNewMgr_ok (NL : List (Tok × Int))
 
 /-! ### `load` on a well-formed file -/
 
-/-- `load` succeeds on a well-formed file; the manager satisfies the invariant; `umap`
+/-- the rebuild succeeds on a well-formed file; the manager satisfies the invariant; `umap`
 sends every node number of the file to a reference that denotes, by variable name, what
 the node list says — whatever the numbering of the nodes is -/
-theorem dddmpLoad_nodes_of_foaSpec (H : FoaSpec) (f : DddmpFile) (hf : f.WF) :
-    ∃ m umap, loadDddmpU f = .ok (m, umap) ∧ Inv m ∧
+theorem dddmpLoadCore_nodes_of_foaSpec (H : FoaSpec) (f : DddmpFile) (hf : f.WF) :
+    ∃ m umap roots, dddmpLoadCore f = .ok (m, umap, roots) ∧ Inv m ∧
       ∀ x ∈ f.nodes, ∃ r, dictGet umap x.u = some r ∧ m.tbl.Mem r ∧
         ∀ α, den m.tbl r (asgOf m.tbl α) = evalFile f α x.u := by
   obtain ⟨i2p, levels, roots, nv, hh, hnv, hw, _⟩ := hf
@@ -913,15 +913,13 @@ theorem dddmpLoad_nodes_of_foaSpec (H : FoaSpec) (f : DddmpFile) (hf : f.WF) :
     have := hl.det ⟨k, hk, hi'⟩
     omega
   obtain ⟨m, umap, hrb, hs⟩ := DddmpSt.rebuild H C NL.length (Nat.le_refl _) _ _ hs0
-  refine ⟨{ m with roots := roots }, umap, ?_, ?_, ?_⟩
-  · simp only [loadDddmpU, hh, hbody, hre, hnm, hrb]
-  · exact ⟨hs.inv.wf, hs.inv.pred, hs.inv.freeGe, hs.inv.free, hs.inv.refOne, hs.inv.refDom,
-      hs.inv.cache⟩
+  refine ⟨m, umap, roots, ?_, hs.inv, ?_⟩
+  · simp only [dddmpLoadCore, hh, hbody, hre, hnm, hrb]
   · intro x hx
     have hev : ∀ α y, evalFile f α y = evalFileF i2p levels f.nodes α (nv + 2).toNat y := by
       intro α y
       simp [evalFile, hh, hnv]
-    have hasg : ∀ α, asgOf ({ m with roots := roots } : Mgr).tbl α = asgOfMap W α := by
+    have hasg : ∀ α, asgOf m.tbl α = asgOfMap W α := by
       intro α
       show asgOfMap m.tbl.l2v α = _
       rw [hs.l2v]
@@ -937,15 +935,15 @@ theorem dddmpLoad_nodes_of_foaSpec (H : FoaSpec) (f : DddmpFile) (hf : f.WF) :
 
 /-! ### the roots -/
 
-/-- on success `roots` holds the numbers written in the file, as they are -/
-theorem loadDddmpU_roots {f : DddmpFile} {m : Mgr} {umap : List (Int × Int)}
-    (h : loadDddmpU f = .ok (m, umap)) :
-    ∃ i2p levels roots, dddmpHeader f = .ok (i2p, levels, roots) ∧ m.roots = roots := by
-  unfold loadDddmpU at h
+/-- the third component of `dddmpLoadCore` is the `roots` of the header -/
+theorem dddmpLoadCore_roots {f : DddmpFile} {m : Mgr} {umap : List (Int × Int)} {roots : List Int}
+    (h : dddmpLoadCore f = .ok (m, umap, roots)) :
+    ∃ i2p levels, dddmpHeader f = .ok (i2p, levels, roots) := by
+  unfold dddmpLoadCore at h
   split at h
   · cases h
-  · next i2p levels roots hh =>
-    refine ⟨i2p, levels, roots, hh, ?_⟩
+  · next i2p levels roots' hh =>
+    refine ⟨i2p, levels, ?_⟩
     split at h
     · cases h
     · split at h
@@ -955,35 +953,34 @@ theorem loadDddmpU_roots {f : DddmpFile} {m : Mgr} {umap : List (Int × Int)}
         · split at h
           · cases h
           · simp only [Except.ok.injEq, Prod.mk.injEq] at h
-            rw [← h.1]
+            rw [← h.2.2]; exact hh
 
 /-- the roots of `m` denote, by variable name and as a set of functions, the root entries
-of the file -/
+of the file (`bdd.roots` is a `set`: which root entry became which element is not
+observable) -/
 def DddmpRootsDenote (f : DddmpFile) (m : Mgr) : Prop :=
   (∀ ρ ∈ f.rootids.getD [], ∃ r ∈ m.roots, m.tbl.Mem r ∧
       ∀ α, den m.tbl r (asgOf m.tbl α) = evalFile f α ρ) ∧
   (∀ r ∈ m.roots, ∃ ρ ∈ f.rootids.getD [],
       ∀ α, den m.tbl r (asgOf m.tbl α) = evalFile f α ρ)
 
-/-- what is proved of the current code: everything about the node numbers, and the root
-entries *translated through `umap` with their sign* denote the right functions — but
-`roots` itself holds the untranslated numbers of the file -/
-theorem dddmpLoad_spec_partial_of_foaSpec (H : FoaSpec) (f : DddmpFile) (hf : f.WF) :
-    ∃ m umap, loadDddmpU f = .ok (m, umap) ∧ loadDddmp f = .ok m ∧ Inv m ∧
+/-- each root entry, translated through `umap` with its sign, denotes its function -/
+theorem dddmpLoadCore_spec_of_foaSpec (H : FoaSpec) (f : DddmpFile) (hf : f.WF) :
+    ∃ m umap roots, dddmpLoadCore f = .ok (m, umap, roots) ∧ Inv m ∧
       (∀ x ∈ f.nodes, ∃ r, dictGet umap x.u = some r ∧ m.tbl.Mem r ∧
         ∀ α, den m.tbl r (asgOf m.tbl α) = evalFile f α x.u) ∧
       (∀ ρ ∈ f.rootids.getD [], ∃ r, dictGet umap (ρ.natAbs : Int) = some r ∧
         m.tbl.Mem (if ρ > 0 then r else -r) ∧
         ∀ α, den m.tbl (if ρ > 0 then r else -r) (asgOf m.tbl α) = evalFile f α ρ) ∧
-      m.roots = dedupInts (f.rootids.getD []) := by
-  obtain ⟨m, umap, hload, hinv, hnodes⟩ := dddmpLoad_nodes_of_foaSpec H f hf
+      roots = dedupInts (f.rootids.getD []) := by
+  obtain ⟨m, umap, roots', hload, hinv, hnodes⟩ := dddmpLoadCore_nodes_of_foaSpec H f hf
   obtain ⟨i2p, levels, roots, nv, hh, hnv, hw, hroots⟩ := hf
   obtain ⟨_, _, rootids, _, _, hrid, _, _, hrd⟩ := dddmpHeader_inv hh
-  obtain ⟨_, _, roots', hh', hmr⟩ := loadDddmpU_roots hload
+  obtain ⟨_, _, hh'⟩ := dddmpLoadCore_roots hload
   rw [hh] at hh'
   simp only [Except.ok.injEq, Prod.mk.injEq] at hh'
   obtain ⟨_, _, rfl⟩ := hh'
-  refine ⟨m, umap, hload, by simp [loadDddmp, hload, Except.map], hinv, hnodes, ?_, ?_⟩
+  refine ⟨m, umap, roots, hload, hinv, hnodes, ?_, ?_⟩
   · intro ρ hρ
     rw [hrid] at hρ
     simp only [Option.getD_some] at hρ
@@ -1012,13 +1009,18 @@ theorem dddmpLoad_spec_partial_of_foaSpec (H : FoaSpec) (f : DddmpFile) (hf : f.
         have : ρ < 0 := by omega
         rw [den_neg _ hinv.wf.toWF _ _ hm]
         simp [this]
-  · rw [hmr, hrd, hrid]; rfl
+  · rw [hrd, hrid]; rfl
 
-/-- the repaired loader (roots translated through `umap`, with sign) satisfies the full
-property: its `roots` denote exactly the functions of the root entries of the file -/
-theorem dddmpLoadFixed_roots_of_foaSpec (H : FoaSpec) (f : DddmpFile) (hf : f.WF) :
-    ∃ m, loadDddmpFixed f = .ok m ∧ Inv m ∧ DddmpRootsDenote f m := by
-  obtain ⟨m, umap, hload, _, hinv, _, hroots, hmr⟩ := dddmpLoad_spec_partial_of_foaSpec H f hf
+/-- `dd.dddmp.load` on a well-formed file (any numbering of the nodes, levels with or
+without gaps): it succeeds, the manager satisfies the invariant, every node number of the
+file is mapped to a reference denoting (by variable name) what the node list says, and
+`roots` denotes exactly the functions of the root entries of the file -/
+theorem dddmpLoad_spec_of_foaSpec (H : FoaSpec) (f : DddmpFile) (hf : f.WF) :
+    ∃ m umap, loadDddmpU f = .ok (m, umap) ∧ loadDddmp f = .ok m ∧ Inv m ∧
+      (∀ x ∈ f.nodes, ∃ r, dictGet umap x.u = some r ∧ m.tbl.Mem r ∧
+        ∀ α, den m.tbl r (asgOf m.tbl α) = evalFile f α x.u) ∧
+      DddmpRootsDenote f m := by
+  obtain ⟨m, umap, roots, hload, hinv, hnodes, hroots, hmr⟩ := dddmpLoadCore_spec_of_foaSpec H f hf
   let g : Int → Int := fun ρ =>
     if ρ > 0 then (dictGet umap (ρ.natAbs : Int)).getD 0 else -(dictGet umap (ρ.natAbs : Int)).getD 0
   have hg : ∀ ρ ∈ f.rootids.getD [], dddmpRootItem umap ρ = .ok (g ρ) ∧ m.tbl.Mem (g ρ) ∧
@@ -1029,12 +1031,14 @@ theorem dddmpLoadFixed_roots_of_foaSpec (H : FoaSpec) (f : DddmpFile) (hf : f.WF
     rw [e]
     refine ⟨?_, hm, hden⟩
     simp [dddmpRootItem, hr]
-  have hmem : ∀ ρ, ρ ∈ m.roots ↔ ρ ∈ f.rootids.getD [] := by
+  have hmem : ∀ ρ, ρ ∈ roots ↔ ρ ∈ f.rootids.getD [] := by
     intro ρ; rw [hmr]; exact mem_dedupInts _ _
-  have hmap : m.roots.mapM (dddmpRootItem umap) = .ok (m.roots.map g) :=
+  have hmap : roots.mapM (dddmpRootItem umap) = .ok (roots.map g) :=
     mapM_ok _ _ _ (fun ρ hρ => (hg ρ ((hmem ρ).mp hρ)).1)
-  refine ⟨{ m with roots := dedupInts (m.roots.map g) }, ?_, ?_, ?_, ?_⟩
-  · simp [loadDddmpFixed, loadDddmpFixedU, hload, hmap, Except.map]
+  have hU : loadDddmpU f = .ok ({ m with roots := dedupInts (roots.map g) }, umap) := by
+    simp [loadDddmpU, hload, hmap]
+  refine ⟨{ m with roots := dedupInts (roots.map g) }, umap, hU, by simp [loadDddmp, hU, Except.map],
+    ?_, hnodes, ?_, ?_⟩
   · exact ⟨hinv.wf, hinv.pred, hinv.freeGe, hinv.free, hinv.refOne, hinv.refDom, hinv.cache⟩
   · intro ρ hρ
     refine ⟨g ρ, ?_, (hg ρ hρ).2.1, (hg ρ hρ).2.2⟩
